@@ -10,9 +10,9 @@ LEVEL = ('bounded symbolic model checking of the real code: every result is "hol
 
 CHECKS = {
  'C01': dict(tech='E1: real filter_utils functions executed on IEEE-double proxies -> one FP-SMT obligation per kernel-contract clause and size tuple, all doubles of the threshold at once (cvc5 1.4 / z3 5.1); E2: path-wise symbolic execution (z3) of the real set_sim_join / overlap-coefficient / overlap filter splits on symbolic token rows under an arbitrary token order; replay through the public joins',
-             note='thresholds in [1e-4,1]; sizes in the stated size set; rows <= 2x2 with <= 3 tokens; pandas/joblib modelled (see DESIGN 3.4); .pyx twins outside', ref='5/C01'),
+             note='thresholds in [1e-4,1]; sizes in the stated size set; rows <= 2x2 with <= 3 tokens plus one wide pair (<= 5 tokens); pandas/joblib modelled (see DESIGN 3.4); .pyx twins outside', ref='5/C01'),
  'C02': dict(tech='E2: z3-decided path exploration of the real join splits (real and unconstrained kernel, symbolic threshold) and of the public joins over the pandas model; oracle = independent three-line score formulas', note='py_stringmatching measures run for real; rows <= 2x2 (core) / 2x3 (API); pandas/joblib modelled', ref='5/C02'),
- 'C03': dict(tech='E2: z3-decided path exploration of the real edit_distance_join / _edit_distance_join_split on symbolic strings (SymStr) through the REAL QgramTokenizer, real frequency ordering, PrefixIndex/PrefixFilter and integer kernel; Levenshtein replaced by a reference DP whose character comparisons are solver decisions; integer kernel obligations over unbounded ints (z3)', note='strings <= 3 characters, tables 1x1/1x2/2x1; compiled Levenshtein stubbed (validated against the .so every run, replays use the .so)', ref='5/C03'),
+ 'C03': dict(tech='E2: z3-decided path exploration of the real edit_distance_join / _edit_distance_join_split on symbolic strings (SymStr) through the REAL QgramTokenizer, real frequency ordering, PrefixIndex/PrefixFilter and integer kernel; Levenshtein replaced by a reference DP whose character comparisons are solver decisions; integer kernel obligations over unbounded ints (z3)', note='strings <= 3 characters (<= 4 over two symbolic letters), tables 1x1/1x2/2x1; compiled Levenshtein stubbed (validated against the .so every run, replays use the .so)', ref='5/C03'),
  'C04': dict(tech='E1: kernel contract K (incl. K-mono) of the real filter_utils functions as FP-SMT obligations over all doubles (cvc5/z3); E2: z3-decided paths of the real filter_pair of Size/Prefix/Position/Suffix/Overlap filters with a symbolic threshold under K, and of every _filter_tables_split under an arbitrary token order', note='pair cells <= 4 tokens; tables 1x2 rows; edit-distance measure covered in C03; conditional structure: E2 assumes K, E1 proves K for the size set; one known finding (SuffixFilter.filter_tables)', ref='5/C04'),
  'C05': dict(tech='E2: z3-decided paths of the real apply_matcher over the pandas model with an uninterpreted similarity function, symbolic integer threshold, six operators, symbolic candidate keys, missing flags, n_jobs; E1: split_table partition obligations (FP-SMT)', note='candset <= 3 (4) rows over 2x2 tables; pickling/real processes outside', ref='5/C05'),
  'C06': dict(tech='E2: z3-decided paths of the real Filter.filter_candset with an uninterpreted filter_pair (all filter behaviours at once) and with the five real filters; OverlapFilter exactness on symbolic cells / tables', note='candset <= 3 (4) rows incl. duplicate index labels; cells <= 3 tokens', ref='5/C06'),
@@ -25,7 +25,7 @@ CHECKS = {
  'C14': dict(tech='E1: size-window tightness as FP-SMT obligations over all doubles (cvc5/z3), edit-distance window over unbounded integers (z3); E2: z3-decided paths for counts-alone, no-common-token (unconstrained kernel stubs, symbolic threshold) and Position subset of Prefix/Size on shared symbolic tables', note='sizes in the size set; tables <= 2x2 with <= 3 tokens; 1e-9 guard band above the 1e-4 margin', ref='5/C14'),
  'C12': dict(tech='E2: inductive step (one call from either tokenizer mode leaves tokenizer and frames as found) + all ordered pairs of calls sharing objects, z3-decided paths over the pandas model; AST scan for module-level state', note='real pandas aliasing/CoW outside (replays compare real frames); histories > 2 calls by induction only', ref='5/C12'),
  'C15': dict(tech='E2: z3-decided paths over the matrix entry point x violated precondition (symbolic choice, symbolic out-of-range thresholds, symbolic missing flags) and over degenerate valid shapes, on the pandas model; exception type, tokenizer mode, no work done before rejection', note='dtypes are tags in the model; replays use real pandas dtypes', ref='5/C15'),
- 'C17': dict(tech='E2+E1: the real profile_table_for_join executed with symbolic row / distinct / missing counts as IEEE-double proxies (float(u)/float(n)*100, round(.,2) encoded exactly); its branches are z3 FP decisions; oracle over all realisable counts up to 2^16 (2^20) rows', note='the counting itself (Series.unique, isnull) is pandas and outside; non-incremental z3 per check', ref='5/C17'),
+ 'C17': dict(tech='E2+E1: the real profile_table_for_join executed with symbolic row / distinct / missing counts as bit-vectors, float(count) exact, float(u)/float(n)*100 and round(.,2) on IEEE-double proxies (QF_BVFP); its branches are z3 decisions; oracle over all realisable counts up to 2^20 (2^21) rows', note='the counting itself (Series.unique, isnull) is pandas and outside; non-incremental z3 per check', ref='5/C17'),
 }
 
 NOT_APPLICABLE = [
